@@ -1,2 +1,2 @@
-import C2paModel.Model.C27
-def main : IO Unit := C2pa.runDriver C2pa.C27.handle
+import C2paModel.Model.C26
+def main : IO Unit := C2pa.runDriver C2pa.C26.handle27
